@@ -2,11 +2,11 @@
    tabs, escaped with \n \t \r \\ like harness/src/bin/c14.rs).
 
      print <sexp>     build the model AST from the s-expression (same format as the harness),
-                      -> <tokens of [print t]> <status> where status is
+                      -> <tokens of [print t]> <parser_image t: 0|1> <status> where status is
                          OK      parse (print t) = Some t
                          DIFF    parse (print t) = Some t' <> t      (third field: dump of t')
                          NONE    parse (print t) = None
-     parse <tokens>   -> <dump of the parsed term> | NONE
+     parse <tokens>   -> <parser_image of the result: 0|1> <dump of the parsed term> | NONE
      lexmulti ...     see [Multi] below
 
    Only glue: s-expression reading/writing and token rendering.  Everything that decides
@@ -476,11 +476,13 @@ let handle (line : string) : string =
         | None -> "NONE"
         | Some t' -> if t' = t then "OK" else "DIFF\t" ^ escape (show (term_sx t'))
     in
-    escape (show_tokens toks) ^ "\t" ^ status
+    let img = if parser_image primops infix_ops t then "1" else "0" in
+    escape (show_tokens toks) ^ "\t" ^ img ^ "\t" ^ status
   | ["parse"; payload] ->
     (match do_parse !quirks (read_tokens (unescape payload)) with
      | None -> "NONE"
-     | Some t -> escape (show (term_sx t)))
+     | Some t ->
+       (if parser_image primops infix_ops t then "1" else "0") ^ "\t" ^ escape (show (term_sx t)))
   | ["roundtrips"; payload] ->
     (* the printer's decision procedure on a chunk list, for the tie with the Rust function *)
     (match term_of (parse_sx (unescape payload)) with
